@@ -111,8 +111,11 @@ func codeEq(a, b []Part) (value, bool) {
 		if y.Kind == PCode {
 			x, y = y, x
 		}
+		if x.Kind == PCode && (y.Kind == PInt || y.Kind == PCell) {
+			return false, true // an identifier is never a number / a single non-letter cell is handled by the lexer harness
+		}
 		if x.Kind == PCode && y.Kind == PLit {
-			if !identLitRe.MatchString(y.Lit) || strings.HasPrefix(y.Lit, "zq") {
+			if !identLitRe.MatchString(y.Lit) || strings.HasPrefix(y.Lit, "zq") || reservedWords[y.Lit] {
 				return false, true
 			}
 			if codeClass(x.Lit) == 'U' && digitsSuffixLitRe.MatchString(y.Lit) {
